@@ -7,6 +7,9 @@ from ..absint import V, INF
 from ..discharge import Engine
 from .. import oblrules
 from ..obligations import ty_range
+from .c07 import inlined_private
+
+KEEP = r"^surface::(index_i64|range_bounds)$"      # the two routines the rules name are never expanded
 
 SIZE_MAX = (1 << 63) - 1
 
@@ -56,21 +59,60 @@ def run(ctx):
     # ---------- (a) POST -------------------------------------------------------------------------------
     ctx.rule("POST", "every Some((start,end)) satisfies 0 <= start < end <= size (direct impls + range_bounds); range impls delegate with size passed through", floor=61)
     eng = Engine(prog)
-    direct = [b for b in bodies if not any(call_matches(t, r"^surface::range_bounds$") for bb, t in b.calls())] + [rb]
-    for b in direct:
-        an = eng.analyze(b.path, ef[b.path])
+    direct = [b for b in bodies if not any(call_matches(t, r"^surface::range_bounds$") for bb, t in (inlined_private(prog, b.path, keep=KEEP) or b).calls())] + [rb]
+    OPT_WIN = r"Option<\(usize, usize\)>"
+
+    def window_ok(st, ts, te, where, site, extra=None):
+        """0 <= start < end <= size in abstract state st (size = the body's own 2nd argument)"""
+        size_t = ("s", "a2", 0)
+        ok0 = ts is not None and st.le(("c", 0), ts)
+        ok1 = ts is not None and te is not None and st.le(ts, te, True)
+        ok2 = te is not None and st.le(te, size_t)
+        inst = {"fn": where, "site": site, "0<=start": bool(ok0), "start<end": bool(ok1), "end<=size": bool(ok2),
+                "start": str(st.itv_term(ts)) if ts else None, "end": str(st.itv_term(te)) if te else None}
+        inst.update(extra or {})
+        ctx.instance("POST", inst)
+        ctx.oblig(ok0 and ok1 and ok2, "POST")
+        return [n for n, o in (("0<=start", ok0), ("start<end", ok1), ("end<=size", ok2)) if not o]
+
+    def refined(an, st, cond_op, tag):
+        """copy of st in which the bool operand holds; None when that is impossible (dead code)"""
+        st = st.copy()
+        cv = an.eval_op(st, cond_op, tag)
+        if cv.const is not None:
+            return st if cv.const else None
+        if cv.cond is not None:
+            an.refine_cond(st, cv.cond, True)
+            if st.dead:
+                return None
+        return st
+
+    for b0 in direct:
+        # private helpers of an impl (a shared resolution routine, a conversion) are analysed as part of it
+        b = inlined_private(prog, b0.path, keep=KEEP) or b0
+        if b is b0:
+            an = eng.analyze(b.path, ef[b.path])
+        else:
+            from ..absint import Analyzer
+            an = Analyzer(b, prog, entry=ef[b0.path], engine=eng, invariants=eng.invariants)
+            an.run()
         n_some = 0
+        # A window is produced by `Some((s, e))` under a branch, by `cond.then_some((s, e))` (= if cond { Some(..) } else { None }, the tuple
+        # being evaluated eagerly) or by `cond.then(|| (s, e))` (= if cond { Some(closure()) } else { None }): one postcondition, three spellings.
         for bb, blk in enumerate(b.blocks):
+            if blk["cleanup"]:
+                continue
             for si, s in enumerate(blk["stmts"]):
-                if s["k"] != "assign" or s["place"]["l"] != 0 or s["place"]["p"]:
+                if s["k"] != "assign" or s["place"]["p"] or not re.search(OPT_WIN, b.local_ty(s["place"]["l"])):
                     continue
                 rv = s["rv"]
                 if rv["k"] != "agg" or rv.get("variant") != "Some":
                     continue
                 n_some += 1
+                site = "%s:%d" % (b.file, s["line"])
                 st = an.in_states.get(bb)
                 if st is None:
-                    ctx.instance("POST", {"fn": b.path, "site": "%s:%d" % (b.file, s["line"]), "unreachable": True})
+                    ctx.instance("POST", {"fn": b.path, "site": site, "unreachable": True})
                     continue
                 st = st.copy()
                 for sj, s2 in enumerate(blk["stmts"][:si]):
@@ -79,47 +121,99 @@ def run(ctx):
                 tk = an.pkey(st, rv["fields"][0]["place"]) if rv["fields"][0]["k"] != "const" else None
                 sv = st.vals.get(tk + ".0") if tk else None
                 evv = st.vals.get(tk + ".1") if tk else None
-                size_t = ("s", "a2", 0)
-                ts, te = st.term(sv) if sv else None, st.term(evv) if evv else None
-                ok0 = ts is not None and st.le(("c", 0), ts)
-                ok1 = ts is not None and te is not None and st.le(ts, te, True)
-                ok2 = te is not None and st.le(te, size_t)
-                ctx.instance("POST", {"fn": b.path, "site": "%s:%d" % (b.file, s["line"]), "0<=start": ok0, "start<end": ok1, "end<=size": ok2,
-                                      "start": str(st.itv(sv)) if sv else None, "end": str(st.itv(evv)) if evv else None})
-                ctx.oblig(ok0 and ok1 and ok2, "POST")
-                if not (ok0 and ok1 and ok2):
-                    miss = [n for n, o in (("0<=start", ok0), ("start<end", ok1), ("end<=size", ok2)) if not o]
-                    ctx.violation("POST", b.path, "some-%d" % n_some, "returned window is not provably within 0 <= start < end <= size (%s)" % ", ".join(miss),
-                                  sites=["%s:%d" % (b.file, s["line"])])
+                miss = window_ok(st, st.term(sv) if sv else None, st.term(evv) if evv else None, b.path, site)
+                if miss:
+                    ctx.violation("POST", b.path, "some-%d" % n_some, "returned window is not provably within 0 <= start < end <= size (%s)" % ", ".join(miss), sites=[site])
+            t = blk["term"]
+            if t["k"] != "call" or t["dest"]["p"] or not re.search(OPT_WIN, b.local_ty(t["dest"]["l"])):
+                continue
+            site = "%s:%d" % (b.file, t["line"])
+            if call_matches(t, r"bool::<impl bool>::then_some$"):
+                n_some += 1
+                st0 = an.call_args.get(bb)
+                st = refined(an, st0, t["args"][0], "ts%d" % bb) if st0 is not None else None
+                if st is None:
+                    ctx.instance("POST", {"fn": b.path, "site": site, "unreachable": True})
+                    continue
+                tk = an.pkey(st, t["args"][1]["place"]) if t["args"][1]["k"] != "const" else None
+                sv = st.vals.get(tk + ".0") if tk else None
+                evv = st.vals.get(tk + ".1") if tk else None
+                miss = window_ok(st, st.term(sv) if sv else None, st.term(evv) if evv else None, b.path, site, {"form": "then_some"})
+                if miss:
+                    ctx.violation("POST", b.path, "some-%d" % n_some, "returned window is not provably within 0 <= start < end <= size (%s)" % ", ".join(miss), sites=[site])
+            elif call_matches(t, r"bool::<impl bool>::then$"):
+                n_some += 1
+                st0 = an.call_args.get(bb)
+                st = refined(an, st0, t["args"][0], "th%d" % bb) if st0 is not None else None
+                if st is None:
+                    ctx.instance("POST", {"fn": b.path, "site": site, "unreachable": True})
+                    continue
+                cl = op_local(t["args"][1])
+                cds = [d for d in b.defs_of(cl) if d[1] != "term" and d[2]["k"] == "agg" and d[2].get("ak") == "closure"] if cl is not None else []
+                miss = ["closure not understood"]
+                if len(cds) == 1:
+                    caps = cds[0][2]["fields"]
+                    cpath = cds[0][2]["def"]
+                    cef = eng.closure_facts(cpath, {b.path: ef[b.path]})
+                    can = eng.analyze(cpath, cef)
+
+                    def back(tm):
+                        """a term of the closure body (constant, or captured value + offset) as a term of the creating body"""
+                        if tm is None or tm[0] == "c":
+                            return tm
+                        m = re.match(r"^f:\(?\*?_1\.(\d+)\)?$", tm[1])
+                        if not m or int(m.group(1)) >= len(caps):
+                            return None
+                        pv = an.eval_op(st, caps[int(m.group(1))], "cb%d" % bb)
+                        if pv.ref_to is not None:
+                            pv = st.vals.get(pv.ref_to)
+                        pt = st.term(pv) if pv is not None else None
+                        if pt is None:
+                            return None
+                        return ("c", pt[1] + tm[2]) if pt[0] == "c" else ("s", pt[1], pt[2] + tm[2])
+                    rets = [r for r in can.cfg.returns if r in can.results]
+                    miss = [] if rets else ["closure does not return"]
+                    for r in rets:
+                        rs = can.results[r]
+                        v0, v1 = rs.vals.get("_0.0"), rs.vals.get("_0.1")
+                        miss += window_ok(st, back(rs.term(v0)) if v0 else None, back(rs.term(v1)) if v1 else None, b.path, site, {"form": "then", "closure": cpath})
+                if miss:
+                    ctx.violation("POST", b.path, "some-%d" % n_some, "returned window is not provably within 0 <= start < end <= size (%s)" % ", ".join(miss), sites=[site])
         if n_some == 0:
             ctx.anchor("POST", b.path + "/no-Some-return")
     for b in bodies:
         if b in direct:
             continue
         # delegation: _0 is the result of range_bounds(_, size) with size = own argument 2
-        calls = [(bb, t) for bb, t in b.calls() if call_matches(t, r"^surface::range_bounds$")]
+        ib = inlined_private(prog, b.path, keep=KEEP) or b      # a private conversion helper of the impl is part of it
+        calls = [(bb, t) for bb, t in ib.calls() if call_matches(t, r"^surface::range_bounds$")]
         ok = False
         if len(calls) == 1:
             bb, t = calls[0]
-            ok = t["dest"]["l"] == 0 and not t["dest"]["p"] and origins(b, t["args"][1]) == {("arg", 2)}
+            # the result reaches the return place unchanged (directly or through a local), size is the impl's own size argument
+            o0 = origins(ib, {"k": "copy", "place": {"l": 0, "p": []}})
+            ok = {x[:2] for x in o0} == {("call", bb)} and origins(ib, t["args"][1]) == {("arg", 2)}
         ctx.instance("POST", {"impl": b.impl_self, "delegates_to_range_bounds_with_size": ok})
         if not ok:
             ctx.violation("POST", b.path, "delegation", "range impl does not return range_bounds(_, size) unchanged with its own size argument", sites=[b.loc])
 
     # ---------- (a') delegation keeps the selector's kind and bounds ------------------------------------
     ctx.rule("DELEGATE-KIND", "range impls forward a range of their own kind whose bounds are only converted (no arithmetic): resolution happens in range_bounds alone", floor=51)
-    CONV = r"(?:surface::index_i64\(%s\)|\(%s as i64\)|i64::from\(%s\)|%s)"
+    I64MAX = str((1 << 63) - 1)
+    CONV = (r"(?:surface::index_i64\(%s\)|\(%s as i64\)|i64::from\(%s\)|%s"
+            r"|Result::unwrap_or\((?:\w+::)*(?:try_into|try_from)\(%s\), " + I64MAX + r"\))")
 
     def conv(x):
-        return CONV % ((re.escape(x),) * 4)
+        return CONV % ((re.escape(x),) * 5)
     for b in bodies:
         if b in direct:
             continue
-        calls = [(bb, t) for bb, t in b.calls() if call_matches(t, r"^surface::range_bounds$")]
+        ib = inlined_private(prog, b.path, keep=KEEP) or b
+        calls = [(bb, t) for bb, t in ib.calls() if call_matches(t, r"^surface::range_bounds$")]
         if len(calls) != 1:
             continue
         from ..flow import expr as _expr
-        e = _expr(b, calls[0][1]["args"][0])
+        e = _expr(ib, calls[0][1]["args"][0])
         kind = re.sub(r"<.*$", "", b.impl_self).split("::")[-1]
         tmpl = {
             "RangeFull": r"^arg1$",
@@ -138,7 +232,7 @@ def run(ctx):
 
     # ---------- (c) width -------------------------------------------------------------------------------
     ctx.rule("WIDTH", "no arithmetic in a type narrower than 64 bits inside any view_bounds impl / range_bounds", floor=61)
-    for b in bodies + [rb] + prog.closures_of(rb):
+    for b in bodies + [rb] + [c for x in bodies + [rb] for c in prog.closures_of(x)]:
         bad = []
         for i, si, s in b.assigns():
             rv = s["rv"]
